@@ -316,7 +316,7 @@ pub fn init_date(interp: &mut Interpreter) {
     interp
         .date_prototype
         .borrow_mut()
-        .set_property(constructor_key, JsValue::Object(constructor.clone()));
+        .define_builtin_property(constructor_key, JsValue::Object(constructor.clone()));
 
     // Register globally
     let date_key = PropertyKey::String(interp.intern("Date"));
